@@ -354,7 +354,7 @@ func writeDocument(e *common.Env, cfg config) (*document, error) {
 			doc.direct = append(doc.direct, ref)
 		}
 		mkEnc := func() pdf.Dict {
-			return pdf.Dict{"Filter": pdf.Name("Standard"), "V": pdf.Integer(4), "R": pdf.Integer(4), "O": fresh(o32), "U": fresh(o32), "P": pdf.Integer(-44),
+			return pdf.Dict{"Filter": pdf.Name("Standard"), "V": pdf.Integer(4), "R": pdf.Integer(4), "O": fresh(o32), "U": fresh(o32), "P": pdf.Integer(-3),
 				"Sig": pdf.Dict{"Type": pdf.Name("Sig"), "Filter": pdf.Name("Adobe.PPKLite"), "Contents": fresh(m6), "ByteRange": pdf.Array{pdf.Integer(0), pdf.Integer(1)}},
 				"ID": pdf.Array{fresh(id0), fresh(id0), fresh(m7)}}
 		}
@@ -1005,7 +1005,7 @@ func (rn *run) tamper(doc *document) {
 	// the /EncryptMetadata flag contradicts /Perms (revision 6): both sides must refuse
 	if doc.R >= 5 && doc.cfg.plainMeta && rn.emdTamper > 0 {
 		old := []byte("/EncryptMetadata false")
-		if pos := bytes.Index(doc.data, old); pos >= 0 {
+		if pos := bytes.LastIndex(doc.data, old); pos >= 0 {
 			rn.emdTamper--
 			nd := append([]byte{}, doc.data...)
 			copy(nd[pos:], []byte("/EncryptMetadata true "))
@@ -1029,7 +1029,7 @@ func (rn *run) tamper(doc *document) {
 			// one bit of /P (the trailer follows the cross-reference table, so its length may change)
 			P, _ := doc.encDict["P"].(pdf.Integer)
 			old := []byte(fmt.Sprintf("/P %d\n", int64(P)))
-			pos := bytes.Index(doc.data, old)
+			pos := bytes.LastIndex(doc.data, old)
 			if pos < 0 {
 				continue
 			}
@@ -1052,7 +1052,7 @@ func (rn *run) tamper(doc *document) {
 			idx = len(val) - 1
 		}
 		old := []byte("/" + string(f) + " <" + hexLower(val) + ">")
-		pos := bytes.Index(doc.data, old)
+		pos := bytes.LastIndex(doc.data, old)
 		if pos < 0 {
 			continue
 		}
